@@ -496,3 +496,81 @@ silent("c11-s-product-commuted", "C11", ADJOINT,
 silent("c11-s-cat-size-local", "C11", ADJOINT,
        "        part_slice = Slice(name, start, start + part.inputs[part_name].dtype, 1, size)\n        part_adj = out_adj(**{name: part_slice})\n        in_adjs.append((part, part_adj))\n        start += part.inputs[part_name].dtype\n",
        "        part_size = part.inputs[part_name].dtype\n        part_slice = Slice(name, start, start + part_size, 1, size)\n        part_adj = out_adj(**{name: part_slice})\n        in_adjs.append((part, part_adj))\n        start += part_size\n")
+
+# ----------------------------------------------------------------------------------------------------------------- later additions
+fire("c01-mean-count-before-restriction", "C01", TERMS,
+     "                reduced_vars &= self.input_vars\n                if not reduced_vars:\n                    return self\n                scale = 1 / reduce(ops.mul, [v.output.size for v in reduced_vars], 1)\n",
+     "                scale = 1 / reduce(ops.mul, [v.output.size for v in reduced_vars], 1)\n                reduced_vars &= self.input_vars\n                if not reduced_vars:\n                    return self\n",
+     "R01.5", "Funsor.reduce")
+silent("c01-s-mean-without-restriction", "C01", TERMS,  # summing over a variable the operand lacks multiplies by its size: same mean
+       "                reduced_vars &= self.input_vars\n                if not reduced_vars:\n                    return self\n                scale = 1 / reduce(ops.mul, [v.output.size for v in reduced_vars], 1)\n",
+       "                if not reduced_vars:\n                    return self\n                scale = 1 / reduce(ops.mul, [v.output.size for v in reduced_vars], 1)\n")
+silent("c01-s-mean-inline-count", "C01", TERMS,
+       "                scale = 1 / reduce(ops.mul, [v.output.size for v in reduced_vars], 1)\n                return self.reduce(ops.add, reduced_vars) * scale\n",
+       "                return self.reduce(ops.add, reduced_vars) / reduce(ops.mul, [v.output.size for v in reduced_vars], 1)\n")
+fire("c07-getslice-key-drops-step", "C07", BUILTIN,
+     "            (x.start, x.stop, x.step) if isinstance(x, slice) else x for x in index", "            (x.start, x.stop) if isinstance(x, slice) else x for x in index",
+     "R07.3", "GetsliceMeta")
+
+
+# ----------------------------------------------------------------------------------------------------------------- renamings
+# behaviour-preserving: all locals of the function the rules look at are renamed and the module is re-emitted by
+# ast.unparse (layout and comments change too).  One variant per anchor function per property that inspects it.
+def rename(prop, file, qual):
+    V.append(dict(id=f"{prop.lower()}-s-rename:{qual}", prop=prop, kind="silent", transform=("rename_locals", file, qual)))
+
+
+for _p, _file, _quals in [
+    ("C17", INTERP, ["Interpretation.__enter__", "PrioritizedInterpretation.__init__", "PrioritizedInterpretation.interpret", "memoize"]),
+    ("C17", ADJOINT, ["AdjointTape.__enter__", "AdjointTape.interpret"]),
+    ("C17", OPTIMIZER, ["apply_optimizer"]),
+    ("C03", INTERP, ["Memoize.interpret", "memoize", "Interpretation.make_hash_key"]),
+    ("C03", INTERPRETER, ["stack_reinterpret", "recursion_reinterpret"]),
+    ("C07", TERMS, ["reflect", "FunsorMeta.__call__", "_alpha_mangle"]),
+    ("C07", DOMAINS, ["ArrayType.__getitem__", "ProductDomain.__getitem__"]),
+    ("C07", TYPING, ["GenericTypeMeta.__getitem__"]),
+    ("C07", OP, ["OpMeta.__call__"]),
+    ("C07", BUILTIN, ["GetsliceMeta.hash_args_kwargs"]),
+    ("C07", INTERP, ["Interpretation.make_hash_key"]),
+    ("C05", TERMS, ["reflect", "_alpha_mangle", "substitute", "SubstituteInterpretation.interpret", "Subs._alpha_convert", "Cat._alpha_convert",
+                    "Independent._alpha_convert", "Reduce._alpha_convert"]),
+    ("C05", INTERPRETER, ["gensym"]),
+    ("C16", REGISTRY, ["PartialDispatcher.partial_call", "KeyedRegistry.__getitem__"]),
+    ("C16", TERMS, ["reflect"]),
+    ("C16", TYPING, ["deep_issubclass", "deep_type", "_deep_type_tuple", "_deep_type_frozenset"]),
+    ("C18", PROGRAM, ["OpProgram.__call__", "OpProgram.as_code", "OpProgram.__init__"]),
+    ("C18", COMPILER, ["compile_funsor", "_lower_contraction", "_lower_binary", "_lower_unary"]),
+    ("C18", "funsor/ops/tracer.py", ["trace_function"]),
+    ("C18", INTERPRETER, ["anf"]),
+    ("C11", ADJOINT, ["AdjointTape.adjoint", "AdjointTape.interpret", "adjoint_binary", "adjoint_reduce", "adjoint_contract", "adjoint_cat"]),
+    ("C06", DOMAINS, ["_find_domain_reduction", "_find_domain_floordiv", "_find_domain_mod", "_find_domain_associative_generic", "_find_domain_cat"]),
+    ("C06", TENSOR, ["Tensor.__init__", "eager_binary_tensor_number", "eager_reduction_tensor"]),
+    ("C02", CNF, ["normalize_contraction_generic_tuple"]),
+    ("C02", OPTIMIZER, ["unfold_contraction_generic_tuple", "optimize_contract_finitary_funsor"]),
+    ("C02", TERMS, ["_reduce_unrelated_vars"]),
+    ("C02", TENSOR, ["eager_scatter_tensor"]),
+    ("C01", TERMS, ["_reduce_unrelated_vars", "Funsor.reduce"]),
+    ("C08", OPTIMIZER, ["unfold_contraction_generic_tuple", "optimize_contract_finitary_funsor", "apply_optimizer"]),
+    ("C08", TERMS, ["_reduce_unrelated_vars"]),
+    ("C15", ARRAY, ["_safe_logaddexp_tensor_tensor", "_safe_logaddexp_number_tensor", "logsumexp"]),
+    ("C20", TERMS, ["Binary.__init__", "Funsor.approximate", "Approximate.__init__"]),
+    ("C20", TENSOR, ["eager_getitem_tensor_variable", "eager_lambda", "Tensor.eager_subs", "align_tensors"]),
+    ("C20", ARRAY, ["_scatter", "_scatter_add"]),
+    ("C20", "funsor/einsum/numpy_log.py", ["einsum"]),
+]:
+    for _q in _quals:
+        rename(_p, _file, _q)
+
+fire("c02-pushdown-guard-dropped", "C02", CNF,
+     "    if (\n        red_op is not ops.null\n        and bin_op is not ops.null\n        and (red_op, bin_op) not in DISTRIBUTIVE_OPS\n    ):\n        return None\n\n    # Count the number",
+     "    # Count the number", "R02.6", "eager_contraction_generic_recursive")
+fire("c08-pushdown-guard-on-reversed-pair", "C08", CNF,
+     "        and (red_op, bin_op) not in DISTRIBUTIVE_OPS\n    ):\n        return None\n\n    # Count the number",
+     "        and (bin_op, red_op) not in DISTRIBUTIVE_OPS\n    ):\n        return None\n\n    # Count the number", "R08.6", "eager_contraction_generic_recursive")
+fire("c01-pushdown-guard-dropped", "C01", CNF,
+     "    if (\n        red_op is not ops.null\n        and bin_op is not ops.null\n        and (red_op, bin_op) not in DISTRIBUTIVE_OPS\n    ):\n        return None\n\n    # Count the number",
+     "    # Count the number", "R01.8", "eager_contraction_generic_recursive")
+silent("c02-s-pushdown-guard-plain", "C02", CNF,
+       "    if (\n        red_op is not ops.null\n        and bin_op is not ops.null\n        and (red_op, bin_op) not in DISTRIBUTIVE_OPS\n    ):\n        return None\n",
+       "    if (red_op, bin_op) not in DISTRIBUTIVE_OPS:\n        return None\n")
+rename("C02", CNF, "eager_contraction_generic_recursive")
